@@ -103,6 +103,11 @@ pub fn prop_dec9(bytes: &[u8]) -> String {
             }
         }
     }
+    // the full decoder must be the same decoder through every public entry point (`str::parse::<Beatmap>`, `Beatmap::from_bytes`,
+    // `Beatmap::decode`, `from_str`, `from_path`): the specialised decoders are compared with ONE of them above (seed C07-l)
+    if let Some(d) = crate::reader::entry_points(bytes) {
+        return format!("FAIL full decoder differs between entry points: {d}");
+    }
     "OK".to_owned()
 }
 
